@@ -6,5 +6,9 @@ cd $REPO || exit 2
 if ! git diff --quiet; then echo "repo dirty"; exit 2; fi
 git apply "$patch" || { echo "patch does not apply"; exit 2; }
 trap "git -C $REPO checkout -- . ; git -C $REPO clean -fdq" EXIT
-cd /verif && VERIF_NO_EVIDENCE=1 ./check run "$prop" --budget "$budget"
+rd=$(mktemp -d /dev/shm/verif-mutant-replays.XXXXXX)
+cd /verif && VERIF_NO_EVIDENCE=1 VERIF_REPLAYDIR=$rd ./check run "$prop" --budget "$budget"
+rc=$?
+rm -rf "$rd"   # replays of deliberately broken trees are of no use once the verdict is printed
+(exit $rc)
 echo "EXIT=$?"
